@@ -53,6 +53,10 @@ func runC04(ctx *core.Ctx) {
 		runC04Oracle(ctx, g)
 		return
 	}
+	if os.Getenv("C04_STREAM") == "loop" { // development aid: only the unicity-loop stream
+		runC04Loop(ctx, g)
+		return
+	}
 
 	// ---- 1. tree.Path: exhaustive key sequences × patterns
 	pkeys := []string{"a", "a.b", "*", "", "services", "👻", "a👻b", "x.y.z", "[0]", "labels"}
@@ -228,7 +232,10 @@ func runC04(ctx *core.Ctx) {
 		ctx.Add("c04.docs", map[string]any{"base": c04Wire(base), "docs": docs})
 	}
 
-	// ---- 9. direct oracle: split a target document into base + overrides and load both with the real loader
+	// ---- 9. the seq / keys loop of enforceUnicity as written: keyed lists repeating keys in every order
+	runC04Loop(ctx, g)
+
+	// ---- 10. direct oracle: split a target document into base + overrides and load both with the real loader
 	runC04Oracle(ctx, g)
 }
 
